@@ -384,9 +384,101 @@ func c13SameJSON(a, b string) bool {
 	return string(xa) == string(ya)
 }
 
+// c13Hand: streams written by hand with the JSON each document means (an alias refers to the most recent definition of its name;
+// merge keys as in truth()); judged on the json route and on the explode route (same value, nothing left behind).
+var c13Hand = []struct {
+	name, yaml string
+	want       []string
+}{
+	{"name-redefined-in-one-document", "a: &x 1\nb: *x\nc: &x 2\nd: *x\ne: &x {p: 3}\nf: {<<: *x}\n", []string{`{"a":1,"b":1,"c":2,"d":2,"e":{"p":3},"f":{"p":3}}`}},
+	{"name-redefined-in-later-documents", "a: &x 1\nb: *x\n---\na: &x 2\nb: *x\n---\nb: &x [3]\nc: *x\n", []string{`{"a":1,"b":1}`, `{"a":2,"b":2}`, `{"b":[3],"c":[3]}`}},
+	{"merge-source-redefined-in-later-documents", "d: &m {p: 1}\nt: {<<: *m}\n---\nd: &m {p: 2}\nt: {<<: *m}\n---\nd: &m {p: 3, q: 4}\nt: {<<: *m, q: 5}\n",
+		[]string{`{"d":{"p":1},"t":{"p":1}}`, `{"d":{"p":2},"t":{"p":2}}`, `{"d":{"p":3,"q":4},"t":{"p":3,"q":5}}`}},
+	{"merged-value-holds-anchor-and-alias-used-again", "s: &s 1\nbase: &b {k: &qq {n: *s}}\nt:\n  <<: *b\nu: *qq\nv: [*b, *qq]\n",
+		[]string{`{"s":1,"base":{"k":{"n":1}},"t":{"k":{"n":1}},"u":{"n":1},"v":[{"k":{"n":1}},{"n":1}]}`}},
+	{"merge-list-whose-entries-hold-aliases", "s: &s [1]\na: &a {x: *s}\nb: &b {y: &in {z: *s}}\nt:\n  <<: [*a, *b]\n  w: *in\n",
+		[]string{`{"s":[1],"a":{"x":[1]},"b":{"y":{"z":[1]}},"t":{"x":[1],"y":{"z":[1]},"w":{"z":[1]}}}`}},
+	{"explicit-value-beside-a-merge-holds-alias-and-anchors", "base: &base {x: 1}\ns: &s [7, 8]\nc:\n  <<: *base\n  k: &kk {p: *s, q: &qq 5}\nd: *kk\ne: *qq\n",
+		[]string{`{"base":{"x":1},"s":[7,8],"c":{"x":1,"k":{"p":[7,8],"q":5}},"d":{"p":[7,8],"q":5},"e":5}`}},
+	{"alias-of-alias-chain", "a: &a {k: 1}\nb: &b {<<: *a, j: 2}\nc: &c {<<: *b, i: 3}\nd: {<<: *c}\ne: [*a, *b, *c]\n",
+		[]string{`{"a":{"k":1},"b":{"k":1,"j":2},"c":{"k":1,"j":2,"i":3},"d":{"k":1,"j":2,"i":3},"e":[{"k":1},{"k":1,"j":2},{"k":1,"j":2,"i":3}]}`}},
+}
+
+func c13CheckHand(name, route string) (kind, detail string) {
+	for _, h := range c13Hand {
+		if h.name != name {
+			continue
+		}
+		docs, err, pan := impl.DecodeYAML(h.yaml)
+		if err != nil || pan != nil {
+			return "rejected", fmt.Sprintf("decode: %v %v", err, pan)
+		}
+		if len(docs) != len(h.want) {
+			return "document-count", fmt.Sprintf("%d documents decoded, %d written", len(docs), len(h.want))
+		}
+		for i, root := range docs {
+			if route == "explode" {
+				res, err, pan := impl.Eval(c15Expr("explode(.)"), root)
+				if err != nil || pan != nil || len(res) != 1 {
+					return "explode-error", fmt.Sprintf("explode(.): %v %v", err, pan)
+				}
+				root = res[0]
+				var walk func(n *yqlib.CandidateNode) string
+				seen := map[*yqlib.CandidateNode]bool{}
+				walk = func(n *yqlib.CandidateNode) string {
+					if n == nil || seen[n] {
+						return ""
+					}
+					seen[n] = true
+					if n.Kind == yqlib.AliasNode {
+						return "an alias node (*" + n.Value + ") is left"
+					}
+					if n.Anchor != "" {
+						return "anchor &" + n.Anchor + " is left"
+					}
+					for _, c := range n.Content {
+						if m := walk(c); m != "" {
+							return m
+						}
+					}
+					return ""
+				}
+				if m := walk(root); m != "" {
+					return "leftover", fmt.Sprintf("document %d after explode(.): %s", i, m)
+				}
+			}
+			js, jerr := c13JSON(root)
+			if jerr != nil {
+				return "json-error", jerr.Error()
+			}
+			if !c13SameJSON(js, h.want[i]) {
+				return "value", fmt.Sprintf("document %d reads %s, means %s", i, js, h.want[i])
+			}
+		}
+	}
+	return "", ""
+}
+
 func c13Run(c *fw.Ctx) error {
+	for hi, h := range c13Hand {
+		if !c.Mine(int64(hi)) {
+			continue
+		}
+		for _, route := range []string{"json", "explode"} {
+			kind, detail := c13CheckHand(h.name, route)
+			c.Eval(1)
+			c.Validated(1)
+			c.Nontrivial("hand/" + h.name + "/" + route)
+			if kind == "" {
+				c.Outcome("hand/" + h.name + "/" + route)
+				continue
+			}
+			c.Count("mismatch", 1)
+			c.Violation(route+"/hand/"+kind+"/"+h.name, int64(hi), c13Case{Route: "hand:" + route, Key: h.name}, fmt.Sprintf("route %s on\n%s%s", route, h.yaml, detail))
+		}
+	}
 	docs := c13Docs(c.Thorough())
-	c.Res.Bound = fmt.Sprintf("%d documents: every placement of <= %d explicit keys of {x y z w} before/after `<<` x {no merge, single alias a|b|c, every ordered list of 1..3 of a b c (c itself merges b)} x 3 routes x 9 read paths", len(docs), map[bool]int{false: 3, true: 4}[c.Thorough()])
+	c.Res.Bound = fmt.Sprintf("%d documents: every placement of <= %d explicit keys of {x y z w} before/after `<<` x {no merge, single alias a|b|c, every ordered list of 1..3 of a b c (c itself merges b)} x 3 routes x 9 read paths; 7 hand-written streams (anchor names redefined within and across documents, merged values that hold anchors and aliases used again, alias chains) x 2 routes", len(docs), map[bool]int{false: 3, true: 4}[c.Thorough()])
 	for i, d := range docs {
 		if !c.Mine(int64(i)) || c.Expired() {
 			continue
@@ -417,6 +509,10 @@ func c13Replay(raw json.RawMessage) (bool, string, error) {
 	var cs c13Case
 	if err := json.Unmarshal(raw, &cs); err != nil {
 		return false, "", err
+	}
+	if strings.HasPrefix(cs.Route, "hand:") {
+		kind, detail := c13CheckHand(cs.Key, strings.TrimPrefix(cs.Route, "hand:"))
+		return kind != "", kind + ": " + detail, nil
 	}
 	for _, m := range c13Mismatches(cs.Doc, cs.Route) {
 		if m.key == cs.Key {
